@@ -223,38 +223,3 @@ def nfkc_userinfo_urls():
             if name in ("user", "password"):
                 out.append((name, shape.replace("{E}", esc.lower())))
     return out
-
-
-def kf_userinfo_nfkc_delimiter_url(url, dp="https"):
-    """the input class of KF-C01-5 (a defect of the unchanged /repo 6e09416; patch
-    notes/fixes/canonicalize-userinfo-nfkc-delimiters.diff): the userinfo of the parsed URL holds the ESCAPES of a
-    character whose NFKC form holds a url delimiter (a code point of the regenerated table Gen.nfkcDelimCodes)"""
-    from urllib.parse import unquote
-
-    try:
-        r = urlsplit(clean_impl(url, dp))
-    except ValueError:
-        return False
-    ui = r.netloc.rpartition("@")[0]
-    if "%" not in ui:
-        return False
-    codes = set(nfkc_delim_codes())
-    return any(ord(c) in codes for c in unquote(ui, errors="replace"))
-
-
-def kf_userinfo_nfkc_delimiter_hit(url, dp="https"):
-    """KF-C01-5 exactly: the URL is of the class AND the unquoted canonical form is refused by urlsplit's NFKC check
-    (the quoted mode escapes every non-ASCII character of the userinfo again and is not affected)"""
-    from ural import canonicalize_url
-
-    if not kf_userinfo_nfkc_delimiter_url(url, dp):
-        return False
-    try:
-        out = canonicalize_url(url, default_protocol=dp, quoted=False)
-    except Exception:  # noqa
-        return False
-    try:
-        urlsplit(out)
-    except ValueError as e:
-        return "NFKC" in str(e)
-    return False
